@@ -10,6 +10,7 @@ func init() {
 		Units: []Unit{evalUnit([]string{"evaluator/common.go", "evaluator/c01.go"},
 			Harness{Fn: "ZZC01Expr", Quick: p("D", 1), Thorough: p("D", 2), ThoroughBudget: 25 * time.Minute, Expect: []string{"expr-ok", "witness:end"}, Cross: true},
 			Harness{Fn: "ZZC01Pairs", Expect: []string{"pair", "expr-ok", "witness:end"}},
+			Harness{Fn: "ZZC01Args", Expect: []string{"args-ok", "witness:end"}},
 			Harness{Fn: "ZZC01Lists", Quick: p("N", 3), Thorough: p("N", 4), Expect: []string{"lists-ok", "witness:end"}},
 		)},
 		Assumptions: []string{
